@@ -22,7 +22,8 @@ RULE = ('chains of length 1..6 (single lock for length 1 as well); begin/end '
         'splice from another chain sharing keys, final signature by a '
         'non-final delegate, non-permitted flag; Certificate pack/unpack over '
         'field ranges. distinct = by (lock, witness, t, now); non-trivial = a '
-        'boundary timestamp, a corruption, or chain length >= 3')
+        'boundary timestamp, a corruption, or chain length >= 3'
+        ' [plus a configured slack threshold (5/10/600/100000, process-wide or per run) with the clock at the configured boundary, script witnesses against the chain lock, builder witnesses re-marked with multi-byte continuation markers, flag-not-permitted scenarios, registers-off processes]')
 ASSUMPTIONS = [
     'verifier clock pinned; default ts_threshold = 60',
     'certificate timestamps in 0 <= ts < 2^31',
